@@ -827,7 +827,12 @@ def series_computation(
         name: linear_operator_wrapped(series) for name, series in series.items()
     }
 
+    # Initial data of the computed series, it is not recomputed by eval.
+    start_data = {}
+
     def del_(series_name, index: int) -> None:
+        if index in start_data.get(series_name, ()):
+            return
         series[series_name].pop(index, None)
         linear_operator_series[series_name].pop(index, None)
 
@@ -855,6 +860,7 @@ def series_computation(
         exec(compile(term.definition, filename="<string>", mode="exec"), eval_scope)
 
         series_data = data.get(term.start, None)
+        start_data[term.name] = series_data or {}
 
         series[term.name] = BlockSeries(
             eval=eval_scope["series_eval"],
